@@ -57,6 +57,8 @@ struct P1Cfg {
     salted: bool,
     /// Some(n): before the n-th event of P1's lifetime; None: 1 s after P1 completed
     at: Option<u32>,
+    /// both puts go through the blocking `Dht` API
+    sync: bool,
 }
 
 struct Out1 {
@@ -107,6 +109,7 @@ fn part1(cfg: &P1Cfg, track: bool) -> Out1 {
         1 => Some(5),
         _ => Some(4),
     };
+    w.sync_api = cfg.sync;
     let c1 = w.call_put_mutable(a, p1, None);
     let mut c2: Option<usize> = None;
     let mut in_flight = false;
@@ -235,7 +238,7 @@ fn permutation(n: usize, mut k: usize) -> Vec<usize> {
     out
 }
 
-fn part2(kind: usize, replies: &[u8], order: usize) -> (String, u64, Vec<(String, String)>) {
+fn part2(kind: usize, replies: &[u8], order: usize, sync: bool) -> (String, u64, Vec<(String, String)>) {
     let mut w = World::new(Chooser::default_run());
     let n = replies.len();
     let mitem = item(5, b"split", None);
@@ -278,6 +281,7 @@ fn part2(kind: usize, replies: &[u8], order: usize) -> (String, u64, Vec<(String
         pump(w, &mut net, ev);
         false
     });
+    w.sync_api = sync;
     let call = match kind {
         0 => w.call_put_mutable(a, mitem, None),
         1 => w.call_put_immutable(a, imm.to_vec()),
@@ -342,17 +346,17 @@ fn run(tier: Tier, shard: usize, nshards: usize, _seed: u64) -> Partial {
     // ---- part 1
     for salted in [false, true] {
         // number of events in P1's lifetime (placement None never issues P2 early)
-        let base = part1(&P1Cfg { rel: 0, cas: 0, salted, at: None }, false);
+        let base = part1(&P1Cfg { rel: 0, cas: 0, salted, at: None, sync: false }, false);
         out.gauge_max("events_in_first_put_lifetime", base.events as u64);
         for rel in 0..4 {
             for cas in 0..3 {
                 let mut placements: Vec<Option<u32>> = (0..=base.events).map(Some).collect();
                 placements.push(None);
-                for at in placements {
+                for (at, sync) in placements.into_iter().flat_map(|p| [(p, false), (p, true)]) {
                     if !mine() {
                         continue;
                     }
-                    let cfg = P1Cfg { rel, cas, salted, at };
+                    let cfg = P1Cfg { rel, cas, salted, at, sync };
                     let o = part1(&cfg, at == Some(2));
                     out.add("executions", 1);
                     out.add("transitions", o.steps);
@@ -361,8 +365,11 @@ fn run(tier: Tier, shard: usize, nshards: usize, _seed: u64) -> Partial {
                         out.add(if o.in_flight { "second_handled_in_flight" } else { "second_handled_after" }, 1);
                     }
                     out.outcomes.insert(format!("{}:{}:{}:{}->{}|{}", REL[rel], CAS[cas], if o.in_flight { "inflight" } else { "after" }, salted, o.r1, o.r2));
+                    if sync {
+                        out.add("blocking_api_executions", 1);
+                    }
                     for (k, d) in &o.problems {
-                        out.violation(k.clone(), format!("{d} [placement {at:?}, salted {salted}]"), json!({"part": 1, "rel": rel, "cas": cas, "salted": salted, "at": at}));
+                        out.violation(format!("{k}{}", if sync { "/blocking-api" } else { "" }), format!("{}{d} [placement {at:?}, salted {salted}]", if sync { "[blocking Dht API] " } else { "" }), json!({"part": 1, "rel": rel, "cas": cas, "salted": salted, "at": at, "sync": sync}));
                     }
                 }
             }
@@ -375,16 +382,16 @@ fn run(tier: Tier, shard: usize, nshards: usize, _seed: u64) -> Partial {
             for c in 0..3usize.pow(n as u32) {
                 let replies: Vec<u8> = (0..n).map(|i| ((c / 3usize.pow(i as u32)) % 3) as u8).collect();
                 let orders: usize = if kind == 0 { (1..=n).product() } else { 1 };
-                for order in 0..orders {
+                for (order, sync) in (0..orders).flat_map(|o| [(o, false), (o, true)]) {
                     if !mine() {
                         continue;
                     }
-                    let (r, steps, problems) = part2(kind, &replies, order);
+                    let (r, steps, problems) = part2(kind, &replies, order, sync);
                     out.add("executions", 1);
                     out.add("transitions", steps);
                     out.outcomes.insert(format!("split:{}:{replies:?}->{r}", KINDS[kind]));
                     for (k, d) in problems {
-                        out.violation(k, d, json!({"part": 2, "kind": kind, "replies": replies, "order": order}));
+                        out.violation(format!("{k}{}", if sync { "/blocking-api" } else { "" }), format!("{}{d}", if sync { "[blocking Dht API] " } else { "" }), json!({"part": 2, "kind": kind, "replies": replies, "order": order, "sync": sync}));
                     }
                 }
             }
@@ -403,8 +410,9 @@ fn replay(v: &Value) -> Result<Option<Violation>, String> {
         let kind = v.get("kind").and_then(|x| x.as_u64()).ok_or("kind")? as usize;
         let order = v.get("order").and_then(|x| x.as_u64()).ok_or("order")? as usize;
         let replies: Vec<u8> = v.get("replies").and_then(|x| x.as_array()).ok_or("replies")?.iter().filter_map(|x| x.as_u64().map(|x| x as u8)).collect();
-        for (k, d) in part2(kind, &replies, order).2 {
-            out.violation(k, d, v.clone());
+        let sync = v.get("sync").and_then(|x| x.as_bool()).unwrap_or(false);
+        for (k, d) in part2(kind, &replies, order, sync).2 {
+            out.violation(format!("{k}{}", if sync { "/blocking-api" } else { "" }), d, v.clone());
         }
     } else {
         let cfg = P1Cfg {
@@ -412,9 +420,11 @@ fn replay(v: &Value) -> Result<Option<Violation>, String> {
             cas: v.get("cas").and_then(|x| x.as_u64()).ok_or("cas")? as usize,
             salted: v.get("salted").and_then(|x| x.as_bool()).unwrap_or(false),
             at: v.get("at").and_then(|x| x.as_u64()).map(|x| x as u32),
+            sync: v.get("sync").and_then(|x| x.as_bool()).unwrap_or(false),
         };
+        let sync = cfg.sync;
         for (k, d) in part1(&cfg, false).problems {
-            out.violation(k, d, v.clone());
+            out.violation(format!("{k}{}", if sync { "/blocking-api" } else { "" }), d, v.clone());
         }
     }
     Ok(out.violations.into_iter().next())
